@@ -104,7 +104,7 @@ def floors(tier):
     f = {"evaluations": 8000 if q else 100000, "distinct_nontrivial": 1000 if q else 15000,
          "observed.levels": 4, "observed.external_calls_compared": 1000, "observed.globals_compared": 5000,
          "observed.spill_frames": 30, "observed.matrix_cells": 3000 if q else 30000,
-         "observed.pointer_cells_translated": 20, "observed.stack_passed_calls": 50}
+         "observed.pointer_cells_translated": 10, "observed.stack_passed_calls": 50}
     for t in TARGETS:
         f["observed.executed_by_target.%s" % t] = 2000 if q else 25000
         f["observed.modules_built.%s" % t] = 150 if q else 2500
@@ -934,7 +934,7 @@ def irgen_cfg(r, tgt):
     return {"ptr_size": tgt.ptr_size, "types": vals, "float": any(t[0] == "f" for t in vals),
             "float_to_int": cm.avoided({"cast:f64:i32", "cast:f32:i32"}, tgt.deny) is None,
             "size": r.choice([8, 14, 24, 36]), "n_funcs": 3, "shape": "mem" if r.random() < 0.2 else "ssa",
-            "externals": True, "undefined": r.random() < 0.2, "volatile": r.random() < 0.2}
+            "externals": True, "undefined": r.random() < 0.2, "volatile": r.random() < 0.2, "casts": True}
 
 
 def run_irgen(spec, mon, tgt):
